@@ -487,6 +487,127 @@ theorem mqtt_inflight_lags_counterexample : ¬ mqtt_inflight_exact_full := by
   decide
 
 
+
+/-! ### the lost-connection counter (finding `unitmetrics:mqtt:connection_lost_count:failed-reconnect-counted-as-loss`) -/
+
+theorem applyAllV_append (fix : Bool) (r : MqttRec) (a b : List MEv) :
+    r.applyAllV fix (a ++ b) = (r.applyAllV fix a).applyAllV fix b := by
+  simp [MqttRec.applyAllV, List.foldl_append]
+
+theorem applyV_false (r : MqttRec) (e : MEv) : r.applyV false e = r.apply e := by
+  cases e <;> simp [MqttRec.applyV, MqttRec.apply]
+
+/-- The variant `false` is the code as written. -/
+theorem applyAllV_false (r : MqttRec) (h : List MEv) : r.applyAllV false h = r.applyAll h := by
+  induction h generalizing r with
+  | nil => rfl
+  | cons e h ih =>
+    simp only [MqttRec.applyAllV, MqttRec.applyAll, List.foldl_cons] at ih ⊢
+    rw [applyV_false]; exact ih _
+
+theorem mqttRecOfV_false (tbl : List QMsg) (log : List Obs) : mqttRecOfV false tbl log = mqttRecOf tbl log :=
+  applyAllV_false _ _
+
+theorem hist_cons (u : Bool) (o : Obs) (l : List Obs) :
+    losses u (o :: l) = losses u [o] + losses (brokerUp u [o]) l ∧
+    openedWhileDown u (o :: l) = (openedWhileDown u [o] && openedWhileDown (brokerUp u [o]) l) := by
+  cases o with
+  | polled cn e => cases e <;> simp [losses, openedWhileDown, brokerUp]
+  | _ => simp [losses, openedWhileDown, brokerUp]
+
+/-- One event: the `established` gauge follows the broker, the lost counter adds the losses (repaired: exactly). -/
+theorem step_lost (fix : Bool) (tbl : List QMsg) (s : Scan) (r0 : MqttRec) (o : Obs) (u : Bool)
+    (hu : (r0.applyAllV fix s.out).up = u) (hc : u = true → s.cc > 0) (hw : openedWhileDown u [o] = true) :
+    (r0.applyAllV fix (scanObs tbl s o).out).up = brokerUp u [o] ∧
+    (brokerUp u [o] = true → (scanObs tbl s o).cc > 0) ∧
+    (fix = true → (r0.applyAllV fix (scanObs tbl s o).out).lost = (r0.applyAllV fix s.out).lost + losses u [o]) ∧
+    (r0.applyAllV fix s.out).lost + losses u [o] ≤ (r0.applyAllV fix (scanObs tbl s o).out).lost := by
+  have out_eq : (scanObs tbl s o).out = s.out ++ (scanObs tbl { s with out := [] } o).out := by
+    rw [scanObs_out_split tbl s o]
+  rw [out_eq, applyAllV_append]
+  generalize hr : r0.applyAllV fix s.out = r at hu
+  cases o with
+  | publish cn m q out =>
+    cases out <;> simp [scanObs, MqttRec.applyAllV, MqttRec.applyV, MqttRec.apply, brokerUp, losses, hu] <;> exact hc
+  | done id => simp [scanObs, MqttRec.applyAllV, MqttRec.applyV, MqttRec.apply, brokerUp, losses, hu]; exact hc
+  | cancel id => simp [scanObs, MqttRec.applyAllV, MqttRec.applyV, MqttRec.apply, brokerUp, losses, hu]; exact hc
+  | disconnect cn => simp [scanObs, MqttRec.applyAllV, MqttRec.applyV, MqttRec.apply, brokerUp, losses]
+  | void id => simp [scanObs, MqttRec.applyAllV, MqttRec.applyV, MqttRec.apply, brokerUp, losses, hu]; exact hc
+  | opened cn cfg =>
+    simp only [openedWhileDown, Bool.and_true, Bool.not_eq_true'] at hw
+    subst hw
+    simp [scanObs, MqttRec.applyAllV, brokerUp, losses, hu]
+  | enter cn => simp [scanObs, MqttRec.applyAllV, brokerUp, losses, hu]; exact hc
+  | polled cn e =>
+    cases e with
+    | accept => simp [scanObs, MqttRec.applyAllV, MqttRec.applyV, MqttRec.apply, brokerUp, losses]
+    | other => simp [scanObs, MqttRec.applyAllV, MqttRec.applyV, MqttRec.apply, brokerUp, losses, hu]; exact hc
+    | refuse =>
+      by_cases h0 : s.cc > 0
+      · cases u <;> cases fix <;>
+          simp_all [scanObs, MqttRec.applyAllV, MqttRec.applyV, MqttRec.apply, brokerUp, losses]
+      · have hu' : u = false := by cases u <;> simp_all
+        subst hu'
+        simp_all [scanObs, MqttRec.applyAllV, MqttRec.applyV, MqttRec.apply, brokerUp, losses]
+    | drop =>
+      by_cases h0 : s.cc > 0
+      · cases u <;> cases fix <;>
+          simp_all [scanObs, MqttRec.applyAllV, MqttRec.applyV, MqttRec.apply, brokerUp, losses]
+      · have hu' : u = false := by cases u <;> simp_all
+        subst hu'
+        simp_all [scanObs, MqttRec.applyAllV, MqttRec.applyV, MqttRec.apply, brokerUp, losses]
+
+/-- The record along a scan: `lost` after the history, for either variant. -/
+theorem scan_lost (fix : Bool) (tbl : List QMsg) (log : List Obs) (s : Scan) (r0 : MqttRec) (u : Bool)
+    (hu : (r0.applyAllV fix s.out).up = u) (hc : u = true → s.cc > 0) (hw : openedWhileDown u log = true) :
+    (fix = true → (r0.applyAllV fix (log.foldl (scanObs tbl) s).out).lost
+        = (r0.applyAllV fix s.out).lost + losses u log) ∧
+    (r0.applyAllV fix s.out).lost + losses u log ≤ (r0.applyAllV fix (log.foldl (scanObs tbl) s).out).lost := by
+  induction log generalizing s u with
+  | nil => simp [losses]
+  | cons o log ih =>
+    simp only [List.foldl_cons]
+    obtain ⟨l1, l2⟩ := hist_cons u o log
+    rw [l2, Bool.and_eq_true] at hw
+    obtain ⟨a, b, c, d⟩ := step_lost fix tbl s r0 o u hu hc hw.1
+    obtain ⟨e, f⟩ := ih (scanObs tbl s o) (brokerUp u [o]) a b hw.2
+    refine ⟨fun hf => ?_, ?_⟩
+    · rw [e hf, c hf, l1]; omega
+    · rw [l1]; omega
+
+/-- C15 for the lost-connection counter: it is the number of times an established connection was lost. -/
+def mqtt_lost_full : Prop :=
+  ∀ (tbl : List QMsg) (log : List Obs), openedWhileDown false log = true →
+    (mqttRecOf tbl log).lost = losses false log
+
+/-- **The code as written violates it**: connected once, one outage with two failed attempts to re-connect —
+    `mqtt_target_connection_lost_count` says 3 (`reconnecting()` after every error of an event loop with
+    `conn_count > 0`, also while the connection is already down). -/
+theorem mqtt_lost_counterexample : ¬ mqtt_lost_full := by
+  intro h
+  have := h [] [.opened 0 default, .polled 0 .accept, .polled 0 .drop, .polled 0 .drop, .polled 0 .drop] (by decide)
+  revert this; decide
+
+/-- **As written the counter never undercounts**: every loss of an established connection is counted (the surplus
+    are failed re-connection attempts). -/
+theorem mqtt_lost_partial (tbl : List QMsg) (log : List Obs) (hw : openedWhileDown false log = true) :
+    losses false log ≤ (mqttRecOf tbl log).lost := by
+  have := (scan_lost false tbl log Scan.zero MqttRec.zero false (by simp [Scan.zero, MqttRec.applyAllV, MqttRec.zero])
+    (by simp) hw).2
+  rw [← mqttRecOfV_false]
+  simpa [mqttRecOfV, scan, Scan.zero, MqttRec.applyAllV, MqttRec.zero] using this
+
+/-- **Repaired** (`reconnecting()` counts only when the gauge said up): the counter is exactly the number of times an
+    established connection was lost, for every event history. -/
+theorem mqtt_lost_repaired (tbl : List QMsg) (log : List Obs) (hw : openedWhileDown false log = true) :
+    (mqttRecOfV true tbl log).lost = losses false log := by
+  have := (scan_lost true tbl log Scan.zero MqttRec.zero false (by simp [Scan.zero, MqttRec.applyAllV, MqttRec.zero])
+    (by simp) hw).1 rfl
+  simpa [mqttRecOfV, scan, Scan.zero, MqttRec.applyAllV, MqttRec.zero] using this
+
+example : (mqttRecOfV true [] [.opened 0 default, .polled 0 .accept, .polled 0 .drop, .polled 0 .drop, .polled 0 .drop,
+    .polled 0 .accept, .polled 0 .refuse]).lost = 2 := by decide
+
 /-! ## the exposition of one source (C15 "the Prometheus text parses"; C19 label values) -/
 
 open Rotonda.ConnMetrics (C19prom_escaped_roundtrip C15prom_unique_iff C15prom_unique_repaired)
